@@ -1013,6 +1013,12 @@ func (r *c14Run) step1(op string) string {
 				continue
 			}
 			h := recovery.CheckpointHandle{CheckpointID: o.CheckpointId, URI: o.DkvFileUri}
+			// read everything in the foreground first: a writable instance compacts in the background, where a missing
+			// file would take the whole process down
+			if pre := r.openScan(h); strings.HasPrefix(pre, "panic") || strings.HasPrefix(pre, "error") {
+				r.wiped = true
+				return "deploy-failed " + o.OperatorId
+			}
 			r.gen[i]++
 			db := r.newDB(fmt.Sprintf("/work/op%dg%d", i, r.gen[i]))
 			func() {
